@@ -15,7 +15,7 @@ go build ./... >/dev/null 2>&1 || fail "does not build"
 go test -vet=off -count=1 ./... >/tmp/ev-$name.base 2>&1 || fail "baseline suite fails with the change"
 cp $src/demo_test.go $d/$where/zz_demo_test.go
 go test -vet=off -count=1 -run 'TestDemo' ./$where >/tmp/ev-$name.with 2>&1 && fail "demo passes WITH the change"
-git checkout -- . 
+git checkout -- . ; git clean -fdq
 go test -vet=off -count=1 -run 'TestDemo' ./$where >/tmp/ev-$name.without 2>&1 || fail "demo fails WITHOUT the change"
 rm -f $d/$where/zz_demo_test.go
 git apply $src/patch.diff
